@@ -4,7 +4,7 @@
    the correspondence, which compares each view / comparison of the real generated code with
    the inner value inside the same process.  Proved here: the consequences users rely on. *)
 From NV Require Import Base.Util Base.FloatBits Base.Float Macro.Ast Sem.Value Sem.Order
-     Lemmas.ViewLemmas.
+     Lemmas.ViewLemmas Sem.Utf8 Lemmas.Utf8Order.
 
 (* == holds exactly for equal stored values: lawful Eq, and equal values hash equally *)
 Theorem C13_eq_iff :
@@ -65,3 +65,18 @@ Print Assumptions C13_partial_cmp_agrees_with_eq.
 Example C13_cmp_example :
   value_pcmp FStr (VS [97%N]) (VS [97%N; 98%N]) = Some Lt /\ C13_same_shape (VS [97%N]) (VS [97%N; 98%N]).
 Proof. split; [vm_compute; reflexivity | exact I]. Qed.
+
+(* Rust compares `String` / `str` byte-wise on the UTF-8 form (memcmp); the model compares scalar
+   value by scalar value.  The two orders coincide for every pair of strings, so the model's
+   string comparison IS the inner type's comparison *)
+Theorem C13_str_order_is_byte_order :
+  forall (s t : list N),
+    value_pcmp FStr (VS s) (VS t) = Some (lex_cmp N.compare (utf8_encode s) (utf8_encode t)).
+Proof. intros s t. cbn [value_pcmp]. f_equal. symmetry. exact (utf8_order_preserved s t). Qed.
+Print Assumptions C13_str_order_is_byte_order.
+
+(* non-vacuity: U+FF5E (3 bytes EF BD 9E) sorts before U+10000 (4 bytes F0 90 80 80) both ways *)
+Example C13_str_order_example :
+  lex_cmp N.compare (utf8_encode [0xFF5E%N]) (utf8_encode [0x10000%N]) = Lt
+  /\ value_pcmp FStr (VS [0xFF5E%N]) (VS [0x10000%N]) = Some Lt.
+Proof. split; vm_compute; reflexivity. Qed.
